@@ -11,6 +11,7 @@ import (
 	"os"
 	"path/filepath"
 	"sort"
+	"strings"
 	"sync"
 	"sync/atomic"
 	"time"
@@ -70,10 +71,37 @@ type Step struct {
 	Handle int    `json:"handle,omitempty"`
 	Op     *KOp   `json:"op,omitempty"`
 	Clock  uint64 `json:"clock"`
+	DDoc   string `json:"ddoc,omitempty"`  // putddoc / delddoc / view
+	Views  []ViewDef `json:"views,omitempty"` // putddoc
+	View   string `json:"view,omitempty"`  // view
+	VP     *ViewParams `json:"vp,omitempty"`
 	Q      string `json:"q,omitempty"`     // query: template name
 	Arg    string `json:"arg,omitempty"`   // query: argument
 	Start  string `json:"start,omitempty"` // dump: zero|current|stale|bogus  (CAS of Key in Coll)
 	Plus   uint64 `json:"plus,omitempty"`  // dump: added to the resolved start CAS
+}
+
+type ViewDef struct {
+	Name string `json:"name"`
+	Map  int    `json:"map"` // index into mapSources
+}
+
+type ViewParams struct {
+	Stale        bool    `json:"stale,omitempty"`
+	Descending   bool    `json:"descending,omitempty"`
+	Limit        int     `json:"limit,omitempty"`
+	StartKey     *string `json:"startkey,omitempty"` // JSON text
+	EndKey       *string `json:"endkey,omitempty"`
+	ExclusiveEnd bool    `json:"exclusive_end,omitempty"`
+	Key          *string `json:"key,omitempty"`
+}
+
+// the family of map functions (their Gallina twins: Store.mapfn)
+var mapSources = []string{
+	`function(doc, meta) { if (doc !== null && typeof doc === "object" && typeof doc.a === "number") emit(doc.a, meta.id); }`,
+	`function(doc, meta) { emit(meta.id, null); }`,
+	`function(doc, meta) { if (meta.xattrs && meta.xattrs._sync !== undefined) emit(meta.id, meta.xattrs._sync); }`,
+	`function(doc, meta) { if (doc !== null && typeof doc === "object" && typeof doc.a === "number") { emit([doc.a, 1], null); emit([doc.a, meta.id], null); } }`,
 }
 
 type kvInput struct {
@@ -549,6 +577,55 @@ func xcolBytes(x *[]XKV) []byte {
 }
 
 var errPanic = errors.New("panic")
+
+// a JSON text (integers, strings, arrays, objects, null, booleans) as a term of Json.json
+func jsonTerm(text string) Term {
+	var v any
+	dec := json.NewDecoder(strings.NewReader(text))
+	dec.UseNumber()
+	if err := dec.Decode(&v); err != nil {
+		panic("jsonTerm: " + err.Error())
+	}
+	var conv func(v any) Term
+	conv = func(v any) Term {
+		switch x := v.(type) {
+		case nil:
+			return C("JNull")
+		case bool:
+			return C("JBool", B(x))
+		case json.Number:
+			n, err := x.Int64()
+			if err != nil {
+				panic("jsonTerm: non-integer number")
+			}
+			if n < 0 {
+				return C("JNum", B(true), N(uint64(-n)))
+			}
+			return C("JNum", B(false), N(uint64(n)))
+		case string:
+			return C("JStr", S(x))
+		case []any:
+			var items []any
+			for _, e := range x {
+				items = append(items, conv(e))
+			}
+			return C("JArr", L(items...))
+		case map[string]any:
+			names := make([]string, 0, len(x))
+			for n := range x {
+				names = append(names, n)
+			}
+			sort.Strings(names)
+			var items []any
+			for _, n := range names {
+				items = append(items, P(S(n), conv(x[n])))
+			}
+			return C("JObj", L(items...))
+		}
+		panic("jsonTerm: unsupported")
+	}
+	return conv(v)
+}
 
 // the family of SQL statements of C19 (their semantics in the model: Store.eval_query)
 func queryTemplate(name, arg string) (string, Term, map[string]any) {
@@ -1078,6 +1155,92 @@ func execKvInner(in kvInput, scratch string, prog *kvProgress) (Case, error) {
 				dumpEvs = append(dumpEvs, feventTerm(ev))
 			}
 			respT = C("ROk")
+		case "putddoc", "delddoc", "view":
+			exist, _, err := k.existingColls()
+			if err != nil {
+				return c, err
+			}
+			if !exist[st.Coll] {
+				c.Discard = fmt.Sprintf("step %d addresses collection %s which does not exist (invalid input)", i, st.Coll)
+				break
+			}
+			col, err := k.coll(st.Handle, st.Coll)
+			if err != nil {
+				return c, err
+			}
+			switch st.Kind {
+			case "putddoc":
+				var vts []any
+				dd := sgbucket.DesignDoc{Language: "javascript", Views: sgbucket.ViewMap{}}
+				for _, v := range st.Views {
+					vts = append(vts, P(S(v.Name), N(uint64(v.Map))))
+					dd.Views[v.Name] = sgbucket.ViewDef{Map: mapSources[v.Map]}
+				}
+				opT = C("SPutDDoc", S(st.Coll), S(st.DDoc), L(vts...))
+				if e := col.PutDDoc(ctxBg, st.DDoc, &dd); e != nil {
+					respT = rErr(e)
+				} else {
+					respT = C("ROk")
+				}
+			case "delddoc":
+				opT = C("SDelDDoc", S(st.Coll), S(st.DDoc))
+				if e := col.DeleteDDoc(st.DDoc); e != nil {
+					respT = rErr(e)
+				} else {
+					respT = C("ROk")
+				}
+			case "view":
+				vp := st.VP
+				if vp == nil {
+					vp = &ViewParams{}
+				}
+				params := map[string]any{}
+				jsonT := func(p *string) Term {
+					if p == nil {
+						return None()
+					}
+					return Some(jsonTerm(*p))
+				}
+				setp := func(name string, p *string) {
+					if p != nil {
+						var v any
+						_ = json.Unmarshal([]byte(*p), &v)
+						params[name] = v
+					}
+				}
+				if vp.Stale {
+					params["stale"] = "ok"
+				}
+				if vp.Descending {
+					params["descending"] = true
+				}
+				limT := None()
+				if vp.Limit > 0 {
+					params["limit"] = vp.Limit
+					limT = Some(N(uint64(vp.Limit)))
+				}
+				setp("startkey", vp.StartKey)
+				setp("endkey", vp.EndKey)
+				setp("key", vp.Key)
+				if vp.ExclusiveEnd {
+					params["inclusive_end"] = false
+				}
+				opT = C("SView", S(st.Coll), S(st.DDoc), S(st.View),
+					C("mkVparams", B(vp.Stale), B(vp.Descending), limT, jsonT(vp.StartKey), jsonT(vp.EndKey), B(!vp.ExclusiveEnd), jsonT(vp.Key)))
+				res, e := col.View(ctxBg, st.DDoc, st.View, params)
+				if e != nil {
+					respT = rErr(e)
+				} else {
+					var rows []any
+					for _, r := range res.Rows {
+						kb, _ := json.Marshal(r.Key)
+						vb, _ := json.Marshal(r.Value)
+						rows = append(rows, S(r.ID+"|"+string(kb)+"|"+string(vb)))
+					}
+					respT = C("RRows", L(rows...))
+				}
+				k.cells[fmt.Sprintf("view|stale=%v|desc=%v|limit=%v|range=%v|key=%v", vp.Stale, vp.Descending, vp.Limit > 0, vp.StartKey != nil || vp.EndKey != nil, vp.Key != nil)] = true
+			}
 		case "query":
 			exist, _, err := k.existingColls()
 			if err != nil {
